@@ -359,9 +359,16 @@ func evalC14Chain(c c14Chain, o *Obs) error {
 	seen := map[string]bool{}
 	for i, e := range c.Entries {
 		if c.UseHash && i == 0 {
+			// the same 32 bytes arrive as a hash and as a plain entry (either order): one element
 			var h chainhash.Hash
 			copy(h[:], e)
+			if len(c.Entries)%2 == 0 {
+				b = b.AddEntry(append([]byte{}, h[:]...))
+			}
 			b = b.AddHash(&h)
+			if len(c.Entries)%3 == 0 {
+				b = b.AddEntries([][]byte{append([]byte{}, h[:]...)}).AddHash(&h)
+			}
 			e = h[:]
 		} else if i%2 == 0 {
 			b = b.AddEntry(e)
